@@ -329,7 +329,10 @@ func (cc *grpcClientConn) Receive(msg any) error {
 	if cc.responseHeader.Get(grpcHeaderStatus) != "" {
 		// We got what gRPC calls a trailers-only response, which puts the trailing
 		// metadata (including errors) into HTTP headers. validateResponse has
-		// already extracted the error.
+		// already extracted the error. Record the end of the call like the paths
+		// below do, so that a Send still in progress (or attempted later) fails
+		// instead of blocking on a request body nobody reads any more.
+		cc.duplexCall.SetError(err)
 		return err
 	}
 	// See if the server sent an explicit error in the HTTP or gRPC-Web trailers.
